@@ -16,6 +16,30 @@ SUPPORTS = ['one', 'replicas', 'ensembles', 'cov', 'mixed']
 
 
 # ------------------------------------------------------------------------------------------
+# how often did each judgement run (checklist item 13): counters j:<mechanism> in the evidence
+# ------------------------------------------------------------------------------------------
+def count_judgements(ctx):
+    """Wrap the comparison methods of this context so that every evaluation is counted under its mechanism tag."""
+    if getattr(ctx, '_judgements_counted', False):
+        return
+    ctx._judgements_counted = True
+    for name, pos in (('close', 2), ('equal', 2), ('require', 1)):
+        orig = getattr(ctx, name)
+
+        def wrapped(*a, _orig=orig, _pos=pos, **k):
+            mech = a[_pos] if len(a) > _pos else k.get('mechanism')
+            ctx.count('j:%s' % mech)
+            return _orig(*a, **k)
+        setattr(ctx, name, wrapped)
+
+
+def judged(ctx, mechanism):
+    """For judgements that are decided by a classifier and recorded through ctx.violation directly."""
+    ctx.ev()
+    ctx.count('j:%s' % mechanism)
+
+
+# ------------------------------------------------------------------------------------------
 # strict equality of JSON values (1 != True != 1.0; dict order irrelevant)
 # ------------------------------------------------------------------------------------------
 def json_kind(x):
@@ -211,8 +235,6 @@ def cmp_snap(ctx, g, e, prof, where, name_map=None, skip_chains=(), detail=None)
 def analysable(e, lo=1e-140, hi=1e140, ratio=1e4, mode='json'):
     """An analysis is compared when no square can over/underflow and no chain is degenerate
     (fluctuations at rounding level of what the format stores)."""
-    if not e['chains']:
-        return True
     for n, (idl, d, r) in e['chains'].items():
         md = float(np.max(np.abs(d))) if len(d) else 0.0
         sc = chain_scale(e, n, mode)
@@ -223,7 +245,8 @@ def analysable(e, lo=1e-140, hi=1e140, ratio=1e4, mode='json'):
         c = float(np.max(np.abs(cov))) if cov.size else 0.0
         if m and not (lo < m < hi):
             return False
-        if c and not (lo < c < hi and lo < m * np.sqrt(c) < hi):
+        # the contribution sqrt(g^T C g) and the intermediate products C g, g^T C g must stay inside the floating-point range
+        if c and m and not (lo < m * np.sqrt(c) < hi and m * c < 1e300 and c < 1e300):
             return False
     return True
 
@@ -243,6 +266,10 @@ def cmp_analysis(ctx, o, r, fam, where, kw, rtol=1e-8):
         return ctx.require(type(eo) is type(er), fam + ':analysis:exception', {'where': where, 'orig': repr(eo), 'copy': repr(er), 'kw': kw})
     ok = True
     det = {'kw': kw}
+    if not (np.isfinite(o.dvalue) and np.isfinite(r.dvalue)):
+        # an overflowing total error leaves no finite scale to compare the parts with: only the overflow itself is compared
+        ctx.count('analysis_total_error_not_finite')
+        return ctx.require(repr(float(o.dvalue)) == repr(float(r.dvalue)), fam + ':analysis:dvalue', {'where': where, 'got': r.dvalue, 'exp': o.dvalue, 'kw': kw})
     ok &= ctx.close(r.dvalue, o.dvalue, fam + ':analysis:dvalue', where, rtol=rtol, detail=det)
     ok &= ctx.close(r.ddvalue, o.ddvalue, fam + ':analysis:ddvalue', where, rtol=10 * rtol, scale=max(abs(o.dvalue), abs(o.ddvalue)), detail=det)
     ok &= ctx.require(sorted(r.e_dvalue) == sorted(o.e_dvalue), fam + ':analysis:ensembles', {'where': where, 'got': sorted(r.e_dvalue), 'exp': sorted(o.e_dvalue)})
